@@ -307,3 +307,50 @@ Proof.
   rewrite <- open_caps_param. cbn [r_asn r_hold r_mp4 r_mp6 r_fbasn orb].
   f_equal. rewrite Hbs. lia.
 Qed.
+
+(* ------------------------------------------------------------ fuel adequacy *)
+(* The two `for {}` loops of readOptions / readCapabilities terminate because
+   every iteration that continues has consumed at least the 2 header octets.
+   Formal proxy: the result of the fuelled functions does not depend on the fuel
+   as soon as it exceeds the number of octets left on the stream -- so the
+   "out of fuel" branch (O => Some EOther) is never the one that answers in
+   [read_open], which starts them with S (length s). *)
+Lemma length_dropN m s : length (dropN m s) = (length s - N.to_nat m)%nat.
+Proof. apply skipn_length. Qed.
+
+Lemma read_caps_fuel f1 : forall f2 s n1 n2 r, (length s < f1)%nat -> (length s < f2)%nat ->
+  read_caps f1 s n1 n2 r = read_caps f2 s n1 n2 r.
+Proof.
+  induction f1 as [|f1 IH]; intros f2 s n1 n2 r H1 H2; [lia|]. destruct f2 as [|f2]; [lia|].
+  cbn [read_caps]. rewrite !got2, ?got3.
+  remember (N.min n2 (N.min n1 (N.min 2 (len s)))) as m eqn:Em.
+  destruct (m =? 0) eqn:E0; [reflexivity|]. destruct (m =? 1) eqn:E1; [reflexivity|].
+  assert (Hl : (length (dropN m s) + 2 <= length s)%nat) by (rewrite length_dropN; unfold len in Em; lia).
+  destruct (_ || _).
+  - destruct (full_err _ _); [reflexivity|].
+    match goal with |- (if ?c then _ else _) = _ => destruct c end; [|reflexivity].
+    apply IH; rewrite length_dropN; lia.
+  - match goal with |- (if ?c then _ else _) = _ => destruct c end; [|reflexivity].
+    apply IH; rewrite length_dropN; lia.
+Qed.
+
+Lemma read_opts_fuel f1 : forall f2 s n1 r, (length s < f1)%nat -> (length s < f2)%nat ->
+  read_opts f1 s n1 r = read_opts f2 s n1 r.
+Proof.
+  induction f1 as [|f1 IH]; intros f2 s n1 r H1 H2; [lia|]. destruct f2 as [|f2]; [lia|].
+  cbn [read_opts]. rewrite !got1.
+  remember (N.min n1 (N.min 2 (len s))) as m eqn:Em.
+  destruct (m =? 0) eqn:E0; [reflexivity|]. destruct (m =? 1) eqn:E1; [reflexivity|].
+  assert (Hl : (length (dropN m s) + 2 <= length s)%nat) by (rewrite length_dropN; unfold len in Em; lia).
+  destruct (negb _); [reflexivity|].
+  destruct (read_caps _ _ _ _ _) as [[[[e2 s2] n1b] n2b] r2] eqn:Ec.
+  destruct e2; [reflexivity|]. destruct (n2b =? 0); [|reflexivity].
+  apply read_caps_inv in Ec. destruct Ec as (_ & _ & Hle). unfold len in Hle.
+  apply IH; lia.
+Qed.
+
+(* in particular: more fuel than readOpen gives them changes nothing *)
+Theorem read_fuel_adequate s n1 n2 r extra :
+  read_caps (S (length s) + extra) s n1 n2 r = read_caps (S (length s)) s n1 n2 r /\
+  read_opts (S (length s) + extra) s n1 r = read_opts (S (length s)) s n1 r.
+Proof. split; [apply read_caps_fuel | apply read_opts_fuel]; lia. Qed.
